@@ -33,6 +33,8 @@ pub fn forms_u(r: &mut Rec) {
     r.clone_u(1, 2);
     r.u_assign("add", "assign_ref_swapped", 2, 0, |d, s| *d += s);
     r.uu_opt("checked_add", "method", 0, 1, 2, |a, b| a.checked_add(b));
+    r.uu_opt("checked_add", "trait", 0, 1, 2, |a, b| num_traits::CheckedAdd::checked_add(a, b));
+    r.uu_opt("checked_sub", "trait", 0, 1, 2, |a, b| num_traits::CheckedSub::checked_sub(a, b));
     // subtraction (panics when a < b)
     r.uu("sub", "ref_ref", 0, 1, 2, |a, b| a - b);
     r.uu("sub", "val_ref", 0, 1, 2, |a, b| a.clone() - b);
@@ -72,6 +74,8 @@ pub fn forms_i(r: &mut Rec, full: bool) {
         r.clone_i(0, 2);
         r.i_assign("sub", "assign_val", 2, 1, |d, s| *d -= s.clone());
         r.ii_opt("checked_add", "method", 0, 1, 2, |a, b| a.checked_add(b));
+        r.ii_opt("checked_add", "trait", 0, 1, 2, |a, b| num_traits::CheckedAdd::checked_add(a, b));
+        r.ii_opt("checked_sub", "trait", 0, 1, 2, |a, b| num_traits::CheckedSub::checked_sub(a, b));
         r.ii_opt("checked_sub", "method", 0, 1, 2, |a, b| a.checked_sub(b));
     }
 }
